@@ -65,17 +65,27 @@ def decode_errors(line):
 
 
 def nested_pairs(tokens):
-    """classification help only: (outer href, inner href) for every <a href> start tag inside an open <a href>"""
-    stack, out = [], []
+    """classification help only: (outer href, inner href, prior) for every <a href> start tag inside an open <a href>;
+    prior = another <a href> element was already opened (and closed) inside that same outer element before
+    (the autolink-inside-link situation in which the generator's boolean has been cleared)."""
+    stack, out = [], []          # stack entries: [href or None, number of <a href> children so far]
     for t in tokens:
         if t[0] == "A":
-            if t[1] is not None and any(h is not None for h in stack):
-                out.append((next(h for h in reversed(stack) if h is not None), t[1]))
-            stack.append(t[1])
+            if t[1] is not None:
+                outer = next((e for e in reversed(stack) if e[0] is not None), None)
+                if outer is not None:
+                    out.append((outer[0], t[1], outer[1] > 0))
+                    outer[1] += 1
+            stack.append([t[1], 0])
         elif t[0] == "/":
             if stack:
                 stack.pop()
     return out
+
+
+def href_order(tokens):
+    """hrefs of the <a href> start tags in document order"""
+    return [t[1] for t in tokens if t[0] == "A" and t[1] is not None]
 
 
 _DOC = re.compile(r"^(\s*)///(.*)$")
@@ -153,7 +163,7 @@ def authored_hrefs(wit):
                 t.add(d[1:-1] if d.startswith("<") else d)
             t.update(re.findall(r"<([A-Za-z][A-Za-z0-9+.-]*:[^\s<>]*)>", l))
             t.update(re.findall(r"""href\s*=\s*["']([^"']*)["']""", l))
-    return t
+    return t | refdef_hrefs(wit)
 
 
 def raw_html_hrefs(wit):
@@ -161,6 +171,18 @@ def raw_html_hrefs(wit):
     for _, _, blk in doc_blocks(wit):
         for l in blk:
             t.update(re.findall(r"""href\s*=\s*["']([^"']*)["']""", l))
+    return t
+
+
+def refdef_hrefs(wit):
+    """destinations of markdown reference definitions `[label]: dest` written in doc comments"""
+    t = set()
+    for _, _, blk in doc_blocks(wit):
+        for l in blk:
+            m = re.match(r"\[[^\]]+\]:\s*(<[^>]*>|\S+)", l)
+            if m:
+                d = m.group(1)
+                t.add(d[1:-1] if d.startswith("<") else d)
     return t
 
 
